@@ -397,7 +397,8 @@ def border_image_width(style, name, values):
             computed_values.append(value)
         else:
             number, unit = value
-            computed_values.append(number if unit is None else value)
+            computed_values.append(
+                number if unit is None else length(style, name, value))
     if len(computed_values) == 1:
         computed_values *= 4
     elif len(computed_values) == 2:
